@@ -25,15 +25,20 @@ Fam(r, ca, cb, qa, na, qb, nb, fl) ==
 \* qa/na: query codes and max number of values for A (na = -1: A is not queried); same for B;
 \* fl: values of the formulas flag
 QuickFams == {
-  Fam(2, U9,  {},  U9,  2, {},  -1, BOOLEAN),       \* one queried column, whole universe
+  Fam(1, U9,  {},  U9,  2, {},  -1, {TRUE}),        \* one queried column, whole universe
+  Fam(2, U9,  {},  U9,  1, {},  -1, {TRUE}),
+  Fam(1, U9,  {},  U9,  1, {},  -1, {FALSE}),       \* ... without formulas
   Fam(1, {5}, U9,  {}, -1, U9,   2, {TRUE}),        \* the same on the second column
-  Fam(2, Mix, Mix, Mix, 2, Mix,  2, {TRUE}),        \* two queried columns: conjunction, set/list paths
+  Fam(1, Mix, Mix, Mix, 2, Mix,  2, {TRUE}),        \* two queried columns: conjunction, set/list paths
+  Fam(2, Mix, Mix, Mix, 1, Mix,  1, {TRUE}),
   Fam(1, U9,  U9,  U9,  1, U9,   1, {TRUE}),        \* two queried columns, whole universe, one row
   Fam(2, Mix, {},  {}, -1, {},  -1, BOOLEAN) }      \* no query / empty query
 ThoroughFams == {
-  Fam(3, U9,  {},  U9,  2, {},  -1, BOOLEAN),
+  Fam(3, U9,  {},  U9,  2, {},  -1, {TRUE}),
+  Fam(2, U9,  {},  U9,  2, {},  -1, {FALSE}),
   Fam(2, {5}, U9,  {}, -1, U9,   2, BOOLEAN),
-  Fam(3, Mix, Mix, Mix, 2, Mix,  2, {TRUE}),
+  Fam(2, Mix, Mix, Mix, 2, Mix,  2, {TRUE}),
+  Fam(3, Mix, Mix, Mix, 1, Mix,  1, {TRUE}),
   Fam(1, U9,  U9,  U9,  2, U9,   1, {TRUE}),
   Fam(1, U9,  U9,  U9,  1, U9,   2, {TRUE}),
   Fam(3, Mix, {},  {}, -1, {},  -1, BOOLEAN) }
@@ -96,11 +101,11 @@ DK(in) ==
   \o (IF in.x = "none" THEN <<>> ELSE <<[id |-> "F", fm |-> TRUE]>>)
   \o (IF in.x = "lookup" THEN <<[id |-> "L", fm |-> TRUE]>> ELSE <<>>)
 
-\* PyEq is an equivalence on the universe and coincides with equality of canonical keys
+\* PyEq coincides with structural identity of canonical keys on the whole universe (hence it is an
+\* equivalence relation: reflexive, symmetric, transitive)
 Codes == 0..(Len(Universe) - 1)
 ASSUME \A a \in Codes : PyEq(Val(a), Val(a))
 ASSUME \A a, b \in Codes : PyEq(Val(a), Val(b)) <=> PyEq(Val(b), Val(a))
-ASSUME \A a, b, c \in Codes : (PyEq(Val(a), Val(b)) /\ PyEq(Val(b), Val(c))) => PyEq(Val(a), Val(c))
 ASSUME \A a, b \in Codes : PyEq(Val(a), Val(b)) <=> SameKey(KeyOf(Val(a)), KeyOf(Val(b)))
 \* the facts the property text names
 ASSUME PyEq(Val(1), Val(3)) /\ PyEq(Val(1), Val(10)) /\ PyEq(Val(0), Val(2)) /\ PyEq(Val(0), Val(9))
